@@ -12,11 +12,14 @@
 (*                                  two steps, a direct outline level)     *)
 (*    LI (children, lvl, num)       list item at depth lvl (0-based) of a  *)
 (*                                  bullet / decimal list                  *)
-(*    TBL(rows, cols, hm, vm, mp)   table; hm / vm = anchors of horizontal *)
-(*                                  (gridSpan=2 | columns-spanned=2) and   *)
-(*                                  vertical (vMerge | rows-spanned=2)     *)
-(*                                  merges, mp = anchors with two cell     *)
-(*                                  paragraphs                             *)
+(*    TBL(rows, cols, hm, vm, mp, rc) table; hm / vm = anchors of          *)
+(*                                  horizontal (gridSpan=2 | columns-      *)
+(*                                  spanned=2) and vertical (vMerge |      *)
+(*                                  rows-spanned=2) merges, mp = anchors   *)
+(*                                  with two cell paragraphs, rc = anchors *)
+(*                                  whose first paragraph has mixed inline *)
+(*                                  content (two tokens: text + symbol in  *)
+(*                                  one run | text + span)                 *)
 (* A child is [w, a]: w = the wrapper (r = plain run / bare text, span,    *)
 (* link, ins, sdt), a = the sequence of atoms inside it, atoms from        *)
 (* {t, sym, tab, br, s}.  t and sym carry a token; tokens are numbered     *)
@@ -45,7 +48,7 @@ vars == <<doc, pos, out>>
 HdrTok == 901
 FtrTok == 902
 
-NoTbl == [rows |-> 0, cols |-> 0, hm |-> <<>>, vm |-> <<>>, mp |-> <<>>]
+NoTbl == [rows |-> 0, cols |-> 0, hm |-> <<>>, vm |-> <<>>, mp |-> <<>>, rc |-> <<>>]
 
 \* ------------------------------------------------------------ alphabets
 Wrappers(f) == IF f = "docx" THEN {"r", "span", "link", "ins", "sdt"} ELSE {"r", "span", "link"}
@@ -77,11 +80,14 @@ Grid(t) == [r \in 1..t.rows |-> [c \in 1..t.cols |->
               [kind |-> kd,
                cs |-> IF kd = "a" /\ InS(<<r, c>>, t.hm) THEN 2 ELSE 1,
                rs |-> IF kd = "a" /\ InS(<<r, c>>, t.vm) THEN 2 ELSE 1,
-               np |-> IF kd = "a" THEN (IF InS(<<r, c>>, t.mp) THEN 2 ELSE 1) ELSE 0]]]
+               np |-> IF kd = "a" THEN (IF InS(<<r, c>>, t.mp) THEN 2 ELSE 1) ELSE 0,
+               rich |-> kd = "a" /\ InS(<<r, c>>, t.rc)]]]
 
 Positions(t) == FlattenSeq([r \in 1..t.rows |-> [c \in 1..t.cols |-> <<r, c>>]])
 Anchors(t)   == SelectSeq(Positions(t), LAMBDA p : CellK(t, p[1], p[2]) = "a")
 NPar(t, p)   == IF InS(p, t.mp) THEN 2 ELSE 1
+\* tokens of an anchor cell: one per paragraph, one more if the first is rich
+NCell(t, p)  == NPar(t, p) + (IF InS(p, t.rc) THEN 1 ELSE 0)
 
 TblOK(t) ==
     /\ t.rows >= 1 /\ t.cols >= 1
@@ -93,10 +99,12 @@ TblOK(t) ==
            {t.hm[i], Right(t.hm[i])} \cap {t.vm[j], Below(t.vm[j])} = {}
     /\ \A i \in 1..Len(t.mp) : InS(t.mp[i], Anchors(t))
     /\ \A i, j \in 1..Len(t.mp) : i # j => t.mp[i] # t.mp[j]
+    /\ \A i \in 1..Len(t.rc) : InS(t.rc[i], Anchors(t))
+    /\ \A i, j \in 1..Len(t.rc) : i # j => t.rc[i] # t.rc[j]
 
 \* ---------------------------------------------------------------- blocks
 NTok(b) == IF b.k = "TBL"
-           THEN Sum([i \in 1..Len(Anchors(b.tb)) |-> NPar(b.tb, Anchors(b.tb)[i])])
+           THEN Sum([i \in 1..Len(Anchors(b.tb)) |-> NCell(b.tb, Anchors(b.tb)[i])])
            ELSE NBear(FlatCh(b.ch))
 
 BlockOK(f, b) ==
@@ -136,14 +144,14 @@ Item(d, i) ==
         ids  == [j \in 1..n |-> base + j]
     IN IF b.k = "TBL"
        THEN LET an  == Anchors(b.tb)
-                off == [q \in 1..Len(an) |-> Sum([j \in 1..(q - 1) |-> NPar(b.tb, an[j])])]
+                off == [q \in 1..Len(an) |-> Sum([j \in 1..(q - 1) |-> NCell(b.tb, an[j])])]
             IN [k |-> "TBL", lvl |-> 0, ids |-> ids, gaps |-> <<>>,
                 rows |-> b.tb.rows, cols |-> b.tb.cols,
                 cells |-> [q \in 1..Len(an) |->
                     [r |-> an[q][1], c |-> an[q][2],
                      rs |-> IF InS(an[q], b.tb.vm) THEN 2 ELSE 1,
                      cs |-> IF InS(an[q], b.tb.hm) THEN 2 ELSE 1,
-                     ids |-> [j \in 1..NPar(b.tb, an[q]) |-> base + off[q] + j]]]]
+                     ids |-> [j \in 1..NCell(b.tb, an[q]) |-> base + off[q] + j]]]]
        ELSE [k |-> b.k, lvl |-> IF b.k = "P" THEN 0 ELSE b.lvl, ids |-> ids,
              gaps |-> GapsOf(FlatCh(b.ch)), rows |-> 0, cols |-> 0, cells |-> <<>>]
 
